@@ -19,7 +19,10 @@ def gen(run, num, maxtx=3, shape=0, workers=8, timeout=2400, extra=False):
         if k not in seen:
             seen.add(k)
             out.append(c)
+    # a deterministic order (TLC processes finish in any order), then a seeded shuffle: truncating the sorted list would
+    # favour whatever sorts first (single-file workspaces start with a date, multi-file ones with "include")
     out.sort(key=lambda c: json.dumps([f["lines"] for f in c["files"]], ensure_ascii=False))
+    run.rng.shuffle(out)
     return out[:num]
 
 
